@@ -15,6 +15,12 @@
 (* deepest DEAD record says which line no specification behaviour explains.   *)
 (* DEAD reasons starting with "node" mean the fake node or the harness        *)
 (* disagrees with EvmChain.tla (a broken check, not a violation).             *)
+(*                                                                            *)
+(* When the END of a scan is what the specification does not allow (entries   *)
+(* left pending or removed against the rules), the deviation is recorded      *)
+(* (DEV, and in `rej`) and the specification re-synchronises with the pending *)
+(* set the watcher really has, so that the rest of the trace is still checked *)
+(* (a trace with deviations is rejected, but it is rejected for ALL of them). *)
 EXTENDS EvmWatcher, Json
 
 VARIABLES l, ph, rej
@@ -114,7 +120,7 @@ Dead(why) ==
     /\ PrintT(<<"DEAD", ToJson([t |-> Trace[l].t, n |-> Trace[l].n, ev |-> Trace[l].ev, why |-> why, spec |-> PState])>>)
     /\ l' = NextReset(l)
     /\ ph' = 0
-    /\ UNCHANGED rej
+    /\ rej' = <<>>
 
 DoApply ==
     /\ ph = 0 /\ l <= Len(Trace)
@@ -128,9 +134,26 @@ NodeBad ==
     /\ Dead("node: the answer logged by the fake node is not the one EvmChain prescribes")
     /\ UNCHANGED vars
 
+CanResync == Trace[l].ev = "H_Done" /\ hs # Nil /\ (IF hs = Nil THEN FALSE ELSE Trace[l].a.n = hs.h)
+
+Resync ==
+    /\ ph = 0 /\ l <= Len(Trace)
+    /\ NodeOK(Trace[l])
+    /\ CanResync
+    /\ ~ENABLED Apply(Trace[l])
+    /\ PrintT(<<"DEV", ToJson([t |-> Trace[l].t, n |-> Trace[l].n, ev |-> Trace[l].ev,
+                               why |-> "the specification does not allow this step here (spec = state before the step)", spec |-> PState])>>)
+    /\ rej' = Append(rej, Trace[l].n)
+    /\ pending' = {e \in pending : Key(e) \in LKeys(Trace[l].s.pending)}
+    /\ tried' = tried \cap LKeys(Trace[l].s.pending)
+    /\ hs' = Nil
+    /\ ph' = 1
+    /\ UNCHANGED <<chain, cfg, pl, hq, lq, rs, fwd, life, l>>
+
 NotEnabled ==
     /\ ph = 0 /\ l <= Len(Trace)
     /\ NodeOK(Trace[l])
+    /\ ~CanResync
     /\ ~ENABLED Apply(Trace[l])
     /\ Dead(IF IsEnv(Trace[l]) THEN "node: environment step not enabled in EvmChain"
             ELSE "the specification does not allow this step here (spec = state before the step)")
@@ -142,9 +165,10 @@ LastOfTrace == l = Len(Trace) \/ (IF l < Len(Trace) THEN Trace[l + 1].ev = "Star
 
 DoMatch ==
     /\ ph = 1 /\ LineOK
-    /\ LastOfTrace => PrintT(<<"DONE", ToJson([t |-> Trace[l].t])>>)
+    /\ LastOfTrace => PrintT(<<"DONE", ToJson([t |-> Trace[l].t, devs |-> rej])>>)
     /\ l' = l + 1 /\ ph' = 0
-    /\ UNCHANGED <<vars, rej>>
+    /\ rej' = IF LastOfTrace THEN <<>> ELSE rej
+    /\ UNCHANGED vars
 
 Mismatch ==
     /\ ph = 1 /\ ~LineOK
@@ -152,10 +176,10 @@ Mismatch ==
     /\ UNCHANGED vars
 
 TraceInit == ChainInit(0, 0) /\ WatcherInit([fin |-> FALSE, W |-> 0], 0) /\ l = 1 /\ ph = 0 /\ rej = <<>>
-TraceNext == DoApply \/ NodeBad \/ NotEnabled \/ DoMatch \/ Mismatch
+TraceNext == DoApply \/ NodeBad \/ Resync \/ NotEnabled \/ DoMatch \/ Mismatch
 TraceSpec == TraceInit /\ [][TraceNext]_tvars
 
-IsReset == ph = 1 \/ (l <= Len(Trace) /\ Trace[l].ev = "Start")
+IsReset == ph = 1 \/ (l <= Len(Trace) /\ Trace[l].ev = "Start") \/ rej' # rej
 T_AbandonOnlyAfterWindow == [][IsReset \/ AbandonOnlyAfterWindowStep]_tvars
 T_DropOrphans            == [][IsReset \/ DropOrphansStep]_tvars
 T_NoForwardOfOrphan      == [][IsReset \/ NoForwardOfOrphanStep]_tvars
